@@ -243,6 +243,18 @@ def run(ctx):
                 ctx.violation("AnnotatorLogisticRegression", "unlabeled_samples_matter", f"{a.tolist()} vs {b.tolist()}",
                               {"X": X.tolist(), "y": [[None if np.isnan(v) else v for v in r] for r in y]},
                               what="AnnotatorLogisticRegression: removing fully unlabeled samples changes the fitted model")
+            # "sample weights of unlabeled samples are likewise irrelevant": other weights at the MISSING (sample, annotator) entries
+            # of partially labeled rows - the fitted model must not move
+            W1 = rng.integers(1, 4, size=(n, 2)).astype(float)
+            W2 = W1.copy()
+            W2[np.isnan(y)] = rng.choice([0.0, 0.5, 7.0, 25.0], size=int(np.isnan(y).sum()))
+            c1 = AnnotatorLogisticRegression(classes=[0, 1], n_annotators=2, random_state=seed).fit(X, y, sample_weight=W1).predict_proba(Xq)
+            c2 = AnnotatorLogisticRegression(classes=[0, 1], n_annotators=2, random_state=seed).fit(X, y, sample_weight=W2).predict_proba(Xq)
+            ctx.count("weights_of_missing_entries:AnnotatorLogisticRegression")
+            if not np.allclose(c1, c2, rtol=1e-6, atol=1e-8):
+                ctx.violation("AnnotatorLogisticRegression", "weights_of_unlabeled_matter", f"{c1.tolist()} vs {c2.tolist()}",
+                              {"X": X.tolist(), "y": [[None if np.isnan(v) else v for v in r] for r in y], "W1": W1.tolist(), "W2": W2.tolist(), "seed": seed},
+                              what="AnnotatorLogisticRegression: changing the sample weights of missing (sample, annotator) labels changes the fitted model")
         except Exception as e:
             ctx.violation("AnnotatorLogisticRegression", "exception:" + err_class(e), repr(e)[:300], {})
     ctx.extra["exhaustive"] = False
